@@ -33,42 +33,40 @@ func C19(tier string) int {
 		},
 	})
 	// interleaving part: parties acting at once, every order of their database transactions
-	cmd1 := []string{`STORE 2 +FLAGS (\Seen)`, `EXPUNGE`, `APPEND`, `MOVE 2 other`}
+	core := []string{`STORE 2 +FLAGS (\Seen)`, `EXPUNGE`, `APPEND`, `MOVE 2 other`}
+	cmd1 := core
 	tds := []string{"drop1", "logout2", "removeuser", "close"}
-	conns := []string{"", "created"}
-	cmd2 := []string{""}
-	bound := 2
+	conns := []string{"created"}
+	bound, maxSec := 2, 60
 	if tier == "thorough" {
-		cmd1 = append(cmd1, `FETCH 2 (BODY[])`, `CLOSE`, `SELECT other`, `CREATE x/y`, `UID COPY 2:3 other`)
+		cmd1 = append(append([]string{}, core...), `FETCH 1:* (BODY[])`, `CLOSE`, `SELECT other`, `CREATE x/y`, `UID COPY 2:3 other`)
 		tds = append(tds, "drop2")
 		conns = append(conns, "deleted", "mboxdeleted")
-		cmd2 = append(cmd2, `STORE 3 +FLAGS (\Flagged)`, `EXPUNGE`)
-		bound = 3
+		bound, maxSec = 3, 240
 	}
 	var cc []any
-	if tier == "thorough" {
-		// held-update variant: state updates are handed to the sessions by the explorer (no connector party: the
-		// updates come from session 1's own command)
-		for _, c1 := range cmd1 {
-			for _, td := range tds {
-				cc = append(cc, teardown.ConcCase{Cmd1: c1, Teardown: td, Bound: 2, Hold: true})
+	for _, c1 := range cmd1 {
+		for _, td := range tds {
+			// two parties: the command in flight and the tear-down action
+			cc = append(cc, teardown.ConcCase{Cmd1: c1, Teardown: td, Bound: bound, MaxSec: maxSec})
+			// further commands of session 1 are already in the command reader's hands
+			cc = append(cc, teardown.ConcCase{Cmd1: c1, Teardown: td, Bound: 2, Pipe: true, MaxSec: maxSec})
+			// a connector update as third party
+			for _, cn := range conns {
+				cc = append(cc, teardown.ConcCase{Cmd1: c1, Conn: cn, Teardown: td, Bound: 2, MaxSec: maxSec})
+			}
+			if tier == "thorough" {
+				// held-update variant: state updates are handed to the sessions by the explorer
+				cc = append(cc, teardown.ConcCase{Cmd1: c1, Teardown: td, Bound: 2, Hold: true, MaxSec: maxSec})
 			}
 		}
 	}
-	// pipelined variant: further commands of session 1 are already in the command reader's hands
-	for _, c1 := range cmd1 {
-		for _, td := range tds {
-			cc = append(cc, teardown.ConcCase{Cmd1: c1, Teardown: td, Bound: bound, Pipe: true})
-		}
-	}
-	for _, c1 := range cmd1 {
-		for _, td := range tds {
-			for _, cn := range conns {
-				for _, c2 := range cmd2 {
-					if c2 != "" && td == "logout2" {
-						continue
-					}
-					cc = append(cc, teardown.ConcCase{Cmd1: c1, Cmd2: c2, Conn: cn, Teardown: td, Bound: bound})
+	if tier == "thorough" {
+		// a command on session 2 as third party
+		for _, c1 := range core {
+			for _, td := range []string{"drop1", "drop2", "removeuser", "close"} {
+				for _, c2 := range []string{`STORE 3 +FLAGS (\Flagged)`, `EXPUNGE`} {
+					cc = append(cc, teardown.ConcCase{Cmd1: c1, Cmd2: c2, Teardown: td, Bound: 2, MaxSec: maxSec})
 				}
 			}
 		}
